@@ -61,9 +61,9 @@ fn c02_faults() -> c02::C02 {
 
 pub fn all() -> Vec<Box<dyn Check>> {
     let mut v: Vec<Box<dyn Check>> = Vec::new();
-    v.push(Box::new(c01::C01 { family: "c01_net_exact_timers", skew: false, noisy: false, quick_runs: 12_000, thorough_runs: 200_000 }));
-    v.push(Box::new(c01::C01 { family: "c01_net_skewed_timers", skew: true, noisy: false, quick_runs: 8000, thorough_runs: 150_000 }));
-    v.push(Box::new(c01::C01 { family: "c01_net_noisy_prelude", skew: true, noisy: true, quick_runs: 4000, thorough_runs: 100_000 }));
+    v.push(Box::new(c01::C01 { family: "c01_net_exact_timers", skew: false, noisy: false, quick_runs: 20_000, thorough_runs: 400_000 }));
+    v.push(Box::new(c01::C01 { family: "c01_net_skewed_timers", skew: true, noisy: false, quick_runs: 12_000, thorough_runs: 300_000 }));
+    v.push(Box::new(c01::C01 { family: "c01_net_noisy_prelude", skew: true, noisy: true, quick_runs: 8000, thorough_runs: 200_000 }));
     v.push(Box::new(c02::C02 { family: "c02_closed_loop_fault_free", faults: false, p2p: false, quick_runs: 8000, thorough_runs: 200_000 }));
     v.push(Box::new(c02::C02 { family: "c02_closed_loop_faults_then_quiet", faults: true, p2p: false, quick_runs: 3000, thorough_runs: 100_000 }));
     v.push(Box::new(c02::C02 { family: "c02_closed_loop_peer_delay", faults: false, p2p: true, quick_runs: 3000, thorough_runs: 100_000 }));
